@@ -188,10 +188,11 @@ def _set_integer_constraints_from_physical_type(expression, physical_type, type_
     #
     # TODO(bolms): Add a scheme for defining integer bounds on user-defined
     # external types.
-    if type_size is None:
-        # If the type_size is unknown, then we can't actually say anything about the
-        # minimum and maximum values of the type.  For UInt, Int, and Bcd, an error
-        # will be thrown during the constraints check stage.
+    if type_size is None or type_size < 1:
+        # If the type_size is unknown (or is not a possible size at all), then we
+        # can't actually say anything about the minimum and maximum values of the
+        # type.  For UInt, Int, and Bcd, an error will be thrown during the
+        # constraints check stage.
         expression.type.integer.minimum_value = "-infinity"
         expression.type.integer.maximum_value = "infinity"
         return
